@@ -1,4 +1,5 @@
 (* C16 — The command-line extractor never writes outside the output directory. *)
+From MLA Require Import Limit.
 From MLA Require Import Base Path PathProofs PathLinks PathBenign SrcTie.
 Import Coq.Strings.String.StringSyntax.
 Open Scope N_scope.
